@@ -281,12 +281,53 @@ func c02One(c *Ctx, b *Batch, pkg string, cs respCase, respType string, schema *
 		c.Res.Sample(map[string]any{"gprog_seed": cs.Seed, "operation": cs.Op, "response": trunc(string(js), 400), "abstract_values": ex.stats["abstract"], "nulls": ex.stats["null"]})
 	}
 	seen := map[string]bool{}
+	twins := hasFoldTwinKeys(string(js))
 	for _, p := range w.problems {
-		if !seen[p[0]] {
-			seen[p[0]] = true
-			fail(p[0], p[1], nil)
+		cls := p[0]
+		if twins && cls != "abstract-value-mistyped" {
+			// some object of the response has two keys that differ only in letter case: encoding/json's case-insensitive
+			// key matching lets a struct that selects only one of them read the other (known finding F-02t)
+			cls = "fold-twin-keys:" + cls
+		}
+		if !seen[cls] {
+			seen[cls] = true
+			fail(cls, p[1], nil)
 		}
 	}
+}
+
+// hasFoldTwinKeys: does some JSON object in the text have two different keys that are equal under case folding?
+func hasFoldTwinKeys(text string) bool {
+	var v any
+	d := json.NewDecoder(strings.NewReader(text))
+	d.UseNumber()
+	if d.Decode(&v) != nil {
+		return false
+	}
+	var walk func(x any) bool
+	walk = func(x any) bool {
+		switch t := x.(type) {
+		case map[string]any:
+			low := map[string]string{}
+			for k, vv := range t {
+				if o, ok := low[strings.ToLower(k)]; ok && o != k {
+					return true
+				}
+				low[strings.ToLower(k)] = k
+				if walk(vv) {
+					return true
+				}
+			}
+		case []any:
+			for _, vv := range t {
+				if walk(vv) {
+					return true
+				}
+			}
+		}
+		return false
+	}
+	return walk(v)
 }
 
 type faithWalker struct {
@@ -570,7 +611,8 @@ func sameScalar(x, got any, custom bool) bool {
 		sa, oka := a.(string)
 		sb, okb := b.(string)
 		if oka && okb {
-			return strings.TrimRight(strings.TrimRight(sa, "Z"), "0") == strings.TrimRight(strings.TrimRight(sb, "Z"), "0") || len(sa) > 0 && len(sb) > 0
+			// bound time types re-format their text: any two date/time-looking strings are accepted; other strings must be equal
+			return strings.TrimRight(strings.TrimRight(sa, "Z"), "0") == strings.TrimRight(strings.TrimRight(sb, "Z"), "0") || looksLikeTime(sa) && looksLikeTime(sb)
 		}
 	}
 	return false
@@ -682,4 +724,9 @@ func dedupKeep(xs []string) []string {
 		}
 	}
 	return out
+}
+
+
+func looksLikeTime(s string) bool {
+	return len(s) >= 10 && s[4] == '-' && s[7] == '-' && s[0] >= '0' && s[0] <= '9' && s[1] >= '0' && s[1] <= '9'
 }
